@@ -6,6 +6,7 @@ import (
 	"fmt"
 	"io/fs"
 	"os"
+	"os/exec"
 	"path"
 	"path/filepath"
 	"sort"
@@ -676,7 +677,42 @@ func runHistCase(c *HistCase, prop string) (*caseOut, error) {
 	foreignBackup := false   // foreign content was planted in the backup directory (C13): Rollback may report it
 	forced := false          // a successful ForceBackup happened in this transaction (C17's scenario)
 	skipOracle := false      // the transaction left the domain of C01 by a use the properties exclude (ForceBackup of a directory)
+	// C07: "a following transaction on the same BackupFS behaves exactly like one on a freshly
+	// constructed BackupFS" — from the second transaction on, a fresh instance over a copy of both
+	// trees runs the same steps; results and trees must coincide
+	var fresh *backupfs.BackupFS
+	freshSub := ""
+	txIndex := 0
+	startFresh := func() {
+		fresh = nil
+		if prop != "C07" || c.Layering != "disjoint" || txIndex == 0 || len(c.Faults) > 0 {
+			return
+		}
+		for _, d := range [][]string{e.rc.Dump(e.baseSub), e.rc.Dump(e.bakSub)} {
+			for i := 0; i+6 < len(d); i += 7 {
+				if d[i+1] == "link" && strings.HasPrefix(d[i+6], "/") {
+					return // absolute targets would keep pointing into the original trees
+				}
+			}
+		}
+		freshSub = fmt.Sprintf("/fr%d", txIndex)
+		if err := os.MkdirAll(e.rc.Root+freshSub, 0o755); err != nil {
+			return
+		}
+		for _, pair := range [][2]string{{e.baseSub, "/base"}, {e.bakSub, "/bak"}} {
+			if out, err := exec.Command("cp", "-a", e.rc.Root+pair[0], e.rc.Root+freshSub+pair[1]).CombinedOutput(); err != nil {
+				_ = out
+				return
+			}
+		}
+		b1, _ := backupfs.NewPrefixFS(backupfs.NewOSFS(), e.rc.Root+freshSub+"/base")
+		b2, _ := backupfs.NewPrefixFS(backupfs.NewOSFS(), e.rc.Root+freshSub+"/bak")
+		fresh = backupfs.NewBackupFS(b1, b2)
+		out.count("c07.fresh-twin")
+	}
 	begin := func() {
+		startFresh()
+		txIndex++
 		s0 = blankDirTimes(e.rc.Dump(e.baseSub))
 		b0 = e.rc.Dump(e.bakSub)
 		inTx = true
@@ -852,6 +888,13 @@ func runHistCase(c *HistCase, prop string) (*caseOut, error) {
 				}
 			}
 			out.b.Add(tag, bfsOpLine(op), line(res...))
+			if fresh != nil {
+				fres := execOp(e.rc, fresh, op)
+				if strings.Join(res, "\x00") != strings.Join(fres, "\x00") {
+					viol("C07", fmt.Sprintf("%v in transaction %d returned %.200q, on a freshly constructed BackupFS over a copy of the same trees %.200q", op, txIndex, res, fres))
+					fresh = nil
+				}
+			}
 			if (prop == "C02" || prop == "") && originals != nil && len(c.Faults) == 0 {
 				// between operations every copy is complete: exact content, target and file metadata
 				if msg := e.checkBackupOnlyOriginals(originals, true); msg != "" {
@@ -902,6 +945,17 @@ func runHistCase(c *HistCase, prop string) (*caseOut, error) {
 			}
 			out.b.Add(tag, line("bfs.rollback"), line(res...))
 			out.count("rollback." + res[0])
+			if fresh != nil {
+				ferr := fresh.Rollback()
+				if (ferr == nil) != (rerr == nil) {
+					viol("C07", fmt.Sprintf("Rollback of transaction %d returned %v, on a freshly constructed BackupFS over a copy of the same trees %v", txIndex, rerr, ferr))
+				} else if a, bb := blankDirTimes(e.rc.Dump(e.baseSub)), blankDirTimes(e.rc.Dump(freshSub+"/base")); !dumpEqual(a, bb) {
+					viol("C07", fmt.Sprintf("after the Rollback of transaction %d the base differs from the one driven by a freshly constructed BackupFS: %s", txIndex, dumpDiff(bb, a)))
+				} else if a, bb := blankDirTimes(e.rc.Dump(e.bakSub)), blankDirTimes(e.rc.Dump(freshSub+"/bak")); !dumpEqual(a, bb) {
+					viol("C07", fmt.Sprintf("after the Rollback of transaction %d the backup differs from the one driven by a freshly constructed BackupFS: %s", txIndex, dumpDiff(bb, a)))
+				}
+				fresh = nil
+			}
 			s1 := blankDirTimes(e.rc.Dump(e.baseSub))
 			b1 := e.rc.Dump(e.bakSub)
 			if len(c.Faults) == 0 && !skipOracle {
@@ -1211,12 +1265,18 @@ func genHistCase(r *RNG, g HistGen, umask int) *HistCase {
 		}
 		for n := 1 + r.Intn(3); n > 0; n-- {
 			d := r.Pick(dirs)
+			if r.Chance(1, 6) {
+				d = "/" // a link to the root: "/", or "." / ".." relative to a top-level directory
+			}
 			par := "/"
 			if r.Chance(2, 3) {
 				par = r.Pick(dirs)
 			}
 			if par == d || strings.HasPrefix(par, d+"/") {
 				par = "/"
+			}
+			if d == "/" && par != "/" && strings.Count(par, "/") > 1 {
+				par = "/" + strings.Split(par, "/")[1] // keep the link to the root near the top
 			}
 			l := path.Join(par, r.Pick(namePool)+"k")
 			if have[l] {
@@ -1292,7 +1352,11 @@ func genHistCase(r *RNG, g HistGen, umask int) *HistCase {
 		var more []string
 		for _, p := range paths {
 			for _, a := range aliases {
-				if p == a[1] || strings.HasPrefix(p, a[1]+"/") {
+				if a[1] == "/" {
+					if p != a[0] && !strings.HasPrefix(p, a[0]+"/") {
+						more = append(more, a[0]+strings.TrimSuffix(p, "/"))
+					}
+				} else if p == a[1] || strings.HasPrefix(p, a[1]+"/") {
 					more = append(more, a[0]+p[len(a[1]):])
 				}
 			}
